@@ -256,7 +256,8 @@ def run(ctx):
     finisher_acks(ctx, 200 if ctx.thorough() else 12)
     hops_stream(ctx, 3000 if ctx.thorough() else 300)
     lq_stream(ctx, 1500 if ctx.thorough() else 60)
-    scen = [mk_scen(r, 0, ["500"], 7, 3), mk_scen(r, 2, ["500", "reset"], 6, 2), mk_scen(r, 1, ["timeout"], 3, 2)]
+    scen = [mk_scen(r, 0, ["500"], 7, 3), mk_scen(r, 2, ["500", "reset"], 6, 2), mk_scen(r, 1, ["timeout"], 3, 2),
+            mk_scen(r, 3, ["500"], 4, 2, wait=30), mk_scen(r, 4, ["500", "reset"], 3, 3, batch=2, wait=40)]    # outages of 7 s and more
     if ctx.thorough():
         scen += [mk_scen(r, r.randrange(0, 4), ["500", "reset", "timeout"], r.randrange(1, 12), r.randrange(0, 5), batch=r.choice([1, 2, 3, 5]),
                          workers=r.choice([1, 2, 3]), wait=30) for _ in range(37)]
